@@ -72,7 +72,7 @@ man = {
  "engines": [{"name": "pbt", "path": "/verif/pbt", "serves_properties": sorted(CLAIMED),
               "kind_free_text": "Hypothesis 6.168 property-based harness + exhaustive enumerators + independent standard model (stdspec) + binding stand-ins"}],
  "checks": [], "not_applicable": [],
- "notes": "see DESIGN.md; known_findings.json lists fixed/known defects; pbt/mutants.py is the sensitivity driver; seeded/ holds independently written breaking changes",
+ "notes": "see DESIGN.md; known_findings.json lists fixed/known defects; pbt/mutants.py is the sensitivity driver; seeded/ holds independently written breaking changes; tools/layout_sensitivity.py and tools/ast_mutation.py are the systematic sweeps (sensitivity/LAYOUTS.md, sensitivity/AST.md)",
 }
 for p in props:
     i = p["id"]
